@@ -463,6 +463,68 @@ class CoreCheck:
                                  "steps": [[h["ev"], h["args"]] for h in head if h["ev"] != "Init"]})
         return trace
 
+    # ---- 3a. the message buffers between replicon and a backend (spec/Buffers.tla)
+    def buffers(self, walks, walk_seed=None):
+        """`RepliconClient` / `RepliconServer` as a state machine of their own: TLC checks the clean-slate
+        invariants on every order of the public calls, the as-found variants must violate them, and every
+        behaviour of the bounded export instances (plus `walks` long random ones over both resources) is
+        replayed on the real resources (harness/src/bin/c09_buffers.rs) - drained results, the content of
+        all four buffers and "nothing buffered without a connection" compared after every call."""
+        res = {"model": [], "as_found": [], "replayed": {}}
+        for cfg in ("Buffers_client.cfg", "Buffers_server.cfg"):
+            r = L.run_tlc("Buffers", cfg, self.wd, workers=4, timeout=600)
+            self.states += r["distinct"]
+            self.transitions += r["states"]
+            res["model"].append({"config": cfg, "distinct": r["distinct"], "violated": r["violated"]})
+            if r["violated"]:
+                p = L.save_replay(self.pid, f"{cfg}-tlc-counterexample.txt", r["out"][-20000:])
+                self.v.violation(p, f"TLC: the buffer design violates the clean-slate invariants in {cfg}")
+        for cfg in ("Buffers_found_connecting.cfg", "Buffers_found_stop.cfg"):
+            r = L.run_tlc("Buffers", cfg, self.wd, workers=2, timeout=300)
+            res["as_found"].append({"config": cfg, "found": r["violated"]})
+            if not r["violated"]:
+                raise L.ToolError(f"vacuity: TLC found no counterexample in {cfg}")
+        runs = [("Buffers_gen_c.cfg", {}), ("Buffers_gen_c1.cfg", {}), ("Buffers_gen_s.cfg", {})]
+        if walks:
+            runs.append(("Buffers_sim.cfg", dict(workers=1, simulate=f"num={walks}", depth=20,
+                                                 seed=self.seed if walk_seed is None else walk_seed)))
+        for cfg, kw in runs:
+            r = L.run_tlc("Buffers", cfg, self.wd, timeout=600, **({"workers": 4} | kw))
+            if r["violated"]:
+                p = L.save_replay(self.pid, f"{cfg}-tlc-counterexample.txt", r["out"][-20000:])
+                self.v.violation(p, f"TLC: the buffer design violates the clean-slate invariants in {cfg}")
+                continue
+            cases = L.tlc_prints(r["out"], "BUF")
+            if not cases or any(not isinstance(c, dict) for c in cases):
+                raise L.ToolError(f"no behaviours exported by {cfg}")
+            path = os.path.join(self.wd, cfg.replace(".cfg", ".ndjson"))
+            with open(path, "w") as f:
+                for c in cases:
+                    f.write(json.dumps(c) + "\n")
+            out = L.run([L.harness_bin("c09_buffers"), path], timeout=600)
+            summ = json.loads(out.stdout.strip().splitlines()[-1])
+            if summ["cases"] != len(cases):
+                raise L.ToolError(f"{cfg}: {summ['cases']} of {len(cases)} behaviours replayed")
+            res["replayed"][cfg] = {"behaviours": summ["cases"], "calls": summ["ops"], "mismatches": summ["mismatch_count"]}
+            self.traces += summ["cases"]
+            self.trace_events += summ["ops"]
+            for m in summ["mismatches"][:3]:
+                case = cases[m["case"]]
+                p = L.save_replay(self.pid, f"buffers-{cfg[:-4]}-{m['case']}.json", {"kind": "buffers", "case": case, "mismatch": m})
+                self.v.violation(p, f"buffers ({cfg}): {m['what']} at call {m.get('step')} {json.dumps(m.get('op'))}")
+        # binding self-test: a behaviour with one expected result corrupted must be reported
+        probe = {"ops": [{"op": "c_status", "s": "Connected"}, {"op": "c_send", "ch": 0, "n": 1},
+                         {"op": "c_drain", "got": [[0, 2]]}], "cin": {"0": []}, "cout": [], "sin": {"0": []}, "sout": []}
+        path = os.path.join(self.wd, "buffers-selftest.ndjson")
+        with open(path, "w") as f:
+            f.write(json.dumps(probe) + "\n")
+        summ = json.loads(L.run([L.harness_bin("c09_buffers"), path], timeout=60).stdout.strip().splitlines()[-1])
+        if summ["mismatch_count"] != 1:
+            raise L.ToolError("buffers self-test: a corrupted expected result was not reported")
+        res["binding_selftest"] = "corrupted expected drain result reported"
+        self.profiles["buffers"] = res
+        return res
+
     # ---- 3b. spec -> implementation: behaviours chosen by TLC are executed on the real apps
     def replay_behaviours(self, name, consts, num, depth=60, timeout=600, extra_monitors=(), extra_fields=(), known=(),
                           invariants=None):
@@ -613,6 +675,17 @@ def replay_file(pid, path):
     L.build_harness()
     sd, _ = prepare_spec(wd)
     v = L.Verdict(pid)
+    if path.endswith(".json"):
+        saved = json.load(open(path))
+        if saved.get("kind") == "buffers":  # a behaviour of spec/Buffers.tla: run it on the real resources again
+            case = os.path.join(wd, "case.ndjson")
+            with open(case, "w") as f:
+                f.write(json.dumps(saved["case"]) + "\n")
+            summ = json.loads(L.run([L.harness_bin("c09_buffers"), case], timeout=60).stdout.strip().splitlines()[-1])
+            if summ["mismatch_count"]:
+                v.violation(path, f"replay: {summ['mismatches'][0]['what']}")
+            shutil.rmtree(wd, ignore_errors=True)
+            return v.exit_code()
     # re-execute the recorded actions on the current tree, then validate the fresh trace
     fresh = os.path.join(wd, "fresh.ndjson")
     L.run([L.harness_bin("replay"), "trace", path, fresh], timeout=300)
